@@ -31,4 +31,29 @@ def modelGenesisFields : List (String × List (String × String × String)) := [
   ("noble.orbiter.core.v1.CrossChainID", [("protocol_id", "protocolId", "enum:noble.orbiter.core.v1.ProtocolID"), ("counterparty_id", "counterpartyId", "string")]),
   ("noble.orbiter.v1.GenesisState", [("adapter_genesis", "adapterGenesis", "message:noble.orbiter.component.adapter.v1.GenesisState"), ("dispatcher_genesis", "dispatcherGenesis", "message:noble.orbiter.component.dispatcher.v1.GenesisState"), ("forwarder_genesis", "forwarderGenesis", "message:noble.orbiter.component.forwarder.v1.GenesisState"), ("executor_genesis", "executorGenesis", "message:noble.orbiter.component.executor.v1.GenesisState")])]
 
+/-- Everything the module can ask of another module: the method sets of its expected-keeper interfaces, each with the contract of
+`Recv.lean` that stands for it.  A method added here is a call the model has no contract for (a helper with other semantics —
+`SendCoinsFromModuleToAccount`, `MintCoins`, `DelegateCoins` — cannot be called without appearing in one of these interfaces).
+
+| interface method                                  | contract in the model                                              |
+|---------------------------------------------------|--------------------------------------------------------------------|
+| bank `GetBalance`                                 | `Ledger.bal` (read in the sweep and in the forwarder's pre-check)  |
+| bank `SendCoins` (adapter, fee)                   | `Ctx.send` (`Recv.lean`): sweep, fee payments (`payFees`)          |
+| CCTP `DepositForBurn` / `DepositForBurnWithCaller`| `cctpDepositForBurn`                                               |
+| CCTP `ReplaceDepositForBurn`                      | `Admin.lean` `replaceRequest` (request only; CCTP refuses)         |
+| warp `RemoteTransfer` / `Token`                   | `warpRemoteTransfer`, `lookupTok`                                  |
+| bank `Msg/Send`                                   | `bankMsgSend`                                                      |
+-/
+def modelExternalSurface : List (String × List String) := [("action.BankKeeperFee", ["SendCoins func(context.Context, types.AccAddress, types.AccAddress, types.Coins) error"]),
+  ("forwarding.CCTPMsgServer", ["DepositForBurn func(context.Context, *types.MsgDepositForBurn) (*types.MsgDepositForBurnResponse, error)", "DepositForBurnWithCaller func(context.Context, *types.MsgDepositForBurnWithCaller) (*types.MsgDepositForBurnWithCallerResponse, error)", "ReplaceDepositForBurn func(context.Context, *types.MsgReplaceDepositForBurn) (*types.MsgReplaceDepositForBurnResponse, error)"]),
+  ("forwarding.HyperlaneHandler", ["RemoteTransfer func(context.Context, *types.MsgRemoteTransfer) (*types.MsgRemoteTransferResponse, error)", "Token func(context.Context, *types.QueryTokenRequest) (*types.QueryTokenResponse, error)"]),
+  ("forwarding.InternalHandler", ["Send func(context.Context, *types.MsgSend) (*types.MsgSendResponse, error)"]),
+  ("types.BankKeeper", ["GetBalance func(context.Context, types.AccAddress, string) types.Coin", "SendCoins func(context.Context, types.AccAddress, types.AccAddress, types.Coins) error"]),
+  ("types.BankKeeperAdapter", ["GetBalance func(context.Context, types.AccAddress, string) types.Coin", "SendCoins func(context.Context, types.AccAddress, types.AccAddress, types.Coins) error"]),
+  ("types.BankKeeperForwarder", ["GetBalance func(context.Context, types.AccAddress, string) types.Coin"])]
+
+/-- The store prefixes of the module's collections: the model keeps one independent list per collection, which is what the store
+gives only as long as no prefix is a prefix of another. -/
+def modelStorePrefixes : List (String × List UInt8) := [("adapterParams", [0x28]), ("dispatchedAmounts", [0x1e]), ("dispatchedAmountsByDstChain", [0x20]), ("dispatchedAmountsByDstProto", [0x1f]), ("dispatchedCounts", [0x21]), ("dispatchedCountsByDstProto", [0x22]), ("pausedActions", [0x14]), ("pausedCrossChains", [0x0a]), ("pausedProtocols", [0x0b])]
+
 end Orbiter
